@@ -282,24 +282,29 @@ Fixpoint recv_seq_run (bump : Z -> M Z) (n : nat) (s : Z) : M Z :=
 
 (* ---------------------------------------------------------------- fragment reassembly (dtls/mod.rs) *)
 (* process_handshake_payload, for a message with the expected message_seq: a message whose
-   total_length equals its fragment_length is taken as is; otherwise the body is appended to
-   `incomplete_handshake` (cleared when the message_seq changes or the fragment claims offset 0;
-   the offset is otherwise ignored) and the message is complete as soon as the buffer is at least
-   total_length long -- the WHOLE buffer becomes the body, re-encoded with a 12-byte header.
-   Allocation: the bytes appended, plus header + buffer on completion.  No capacity is reserved
-   from the declared total_length (anchored in gen_c07.py): [alloc] would have to count it. *)
+   total_length equals its fragment_length is taken as is.  Otherwise `incomplete_handshake` is
+   cleared when the message_seq changes or the fragment claims offset 0; the fragment is appended
+   only if it continues the buffered bytes exactly (fragment_offset = buffer length) and fits in the
+   declared total (offset + length <= total_length, computed in u64: no overflow), else it is
+   skipped; the message is complete when the buffer reaches total_length and is then re-encoded
+   with a 12-byte header.  Allocation: the bytes appended, plus header + buffer on completion.  No
+   capacity is reserved from the declared total_length (anchored in gen_c07.py): [alloc] would have
+   to count it.  [r_cap] is a ghost field: the total_length of the last fragment that was appended. *)
 Record frag := mkFrag { f_total : Z; f_seq : Z; f_off : Z; f_body : bytes }.
-Record reasm := mkReasm { r_buf : bytes; r_seq : Z }.
-Definition reasm_init : reasm := mkReasm [] 0.
+Record reasm := mkReasm { r_buf : bytes; r_seq : Z; r_cap : Z }.
+Definition reasm_init : reasm := mkReasm [] 0 0.
 
 Definition reasm_step (st : reasm) (f : frag) : M (option bytes * reasm) :=
   if f_total f =? len (f_body f) then ret (Some (f_body f), st) else
   let buf0 := if negb (r_seq st =? f_seq f) || (f_off f =? 0) then [] else r_buf st in
+  if negb (f_off f =? len buf0) || (f_total f <? f_off f + len (f_body f))
+  then mkM (Ok (None, mkReasm buf0 (f_seq f) (r_cap st))) 1 0              (* continue: fragment skipped *)
+  else
   alloc (len (f_body f)) ;;;                                          (* extend_from_slice *)
   tick (1 + len (f_body f)) ;;;
   let buf := buf0 ++ f_body f in
-  if len buf <? f_total f then ret (None, mkReasm buf (f_seq f))
-  else (alloc (HS_HEADER_SIZE + len buf) ;;; tick (1 + len buf) ;;; ret (Some buf, mkReasm [] (f_seq f))).
+  if len buf <? f_total f then ret (None, mkReasm buf (f_seq f) (f_total f))
+  else (alloc (HS_HEADER_SIZE + len buf) ;;; tick (1 + len buf) ;;; ret (Some buf, mkReasm [] (f_seq f) (f_total f))).
 
 (* a run of fragments that all carry the expected message_seq, up to the first completed message *)
 Fixpoint reasm_run (st : reasm) (fs : list frag) : M (option bytes * reasm * list frag) :=
